@@ -25,7 +25,7 @@ var nCheck int
 func check(t hx.TB, test string, m *am.Module, validate bool) bool {
 	// every third case spells indices and IDs with redundant leading zeros (`extractvalue %s, 010` is index ten)
 	nCheck++
-	x := m.TextNoisy(am.Noise{LeadingZeros: nCheck%3 == 0})
+	x := m.TextNoisy(am.Noise{LeadingZeros: nCheck%3 == 0, OctalLookalikes: nCheck%6 == 0})
 	hx.Trace(test, "ll", x)
 	pm, err, p := lx.Parse(x)
 	if p != nil || err != nil {
